@@ -3,7 +3,7 @@
     only exercised by the correspondence's mutation stream.) *)
 From Coq Require Import String List Ascii Bool Arith ZArith.
 From GP Require Import Base.Sexp Model.Gv Model.Decode Model.Kinds Model.Pipeline Model.Marshal Gen.Structs
-     Proofs.PipelineProofs.
+     Proofs.PipelineProofs Proofs.SmallLaws.
 Import ListNotations.
 Local Open Scope string_scope.
 
@@ -55,7 +55,25 @@ Proof. exact PipelineProofs.usable_marshals. Qed.
 Theorem usable_marshals_refuted : exists g p w, parse_doc g = Ok p w /\ marshal_json p = None.
 Proof. exact PipelineProofs.usable_marshals_refuted. Qed.
 
+(** a document that is neither a mapping nor a list (null, a scalar) is a hard error - never a usable result with a
+    nil step list; a null entry of a top-level step list is a hard error too, and inside a group it makes the group an
+    unknown step that holds the original mapping, with one warning *)
+Theorem parse_doc_scalar_err : forall g,
+  (match g with GMap _ | GSeq _ => False | _ => True end) -> parse_doc g = Err.
+Proof. exact SmallLaws.parse_doc_scalar_err. Qed.
+Theorem parse_doc_null_step_entry : forall before after,
+  parse_doc (GSeq (before ++ GNull :: after)) = Err.
+Proof. exact SmallLaws.parse_doc_null_step_entry. Qed.
+Theorem unm_step_group_null_entry : forall fuel m before after,
+  is_group_map m ->
+  field "Steps" (partition_keys struct_GroupStep m) = Some (GSeq (before ++ GNull :: after)) ->
+  unm_step (S fuel) (GMap m) = Ok (SUnknown (GMap m)) 1.
+Proof. exact SmallLaws.unm_step_group_null_entry. Qed.
+
 Print Assumptions fuel_stable.
+Print Assumptions parse_doc_scalar_err.
+Print Assumptions parse_doc_null_step_entry.
+Print Assumptions unm_step_group_null_entry.
 Print Assumptions steps_one_per_entry.
 Print Assumptions steps_pointwise.
 Print Assumptions group_steps_shape.
